@@ -7,6 +7,7 @@ mod c02;
 mod c03;
 mod c04;
 mod c05;
+mod c06;
 mod c07;
 mod c15;
 mod c16;
@@ -46,6 +47,7 @@ fn prop_fn(id: &str) -> Option<(&'static str, PropFn)> {
         "C03" => ("C03", c03::run as PropFn),
         "C04" => ("C04", c04::run as PropFn),
         "C05" => ("C05", c05::run as PropFn),
+        "C06" => ("C06", c06::run as PropFn),
         "C07" => ("C07", c07::run as PropFn),
         "C15" => ("C15", c15::run as PropFn),
         "C16" => ("C16", c16::run as PropFn),
